@@ -10,7 +10,12 @@ import tempfile
 
 HERE = os.path.dirname(os.path.dirname(os.path.abspath(__file__)))
 repo = sys.argv[1]
-seeds = sys.argv[2:] or sorted(d for d in os.listdir(os.path.join(HERE, 'seeded')) if os.path.isdir(os.path.join(HERE, 'seeded', d)))
+sub = 'seeded'
+rest = sys.argv[2:]
+if rest and rest[0].startswith('--dir='):
+    sub = rest[0][6:]
+    rest = rest[1:]
+seeds = rest or sorted(d for d in os.listdir(os.path.join(HERE, sub)) if os.path.isfile(os.path.join(HERE, sub, d, 'patch.diff')))
 checks = ['C%02d' % i for i in range(1, 21)]
 tmp = tempfile.mkdtemp(prefix='matrix-')
 env = dict(os.environ, VERIF_REPO=repo, VERIF_EVIDENCE_DIR=os.path.join(tmp, 'evidence'), VERIF_REPLAY_DIR=os.path.join(tmp, 'replays'))
@@ -18,7 +23,7 @@ out = {}
 for sid in ['(unchanged)'] + seeds:
     subprocess.run(['git', '-C', repo, 'checkout', '--', '.'], check=True)
     if sid != '(unchanged)':
-        subprocess.run(['git', '-C', repo, 'apply', os.path.join(HERE, 'seeded', sid, 'patch.diff')], check=True)
+        subprocess.run(['git', '-C', repo, 'apply', os.path.join(HERE, sub, sid, 'patch.diff')], check=True)
     row = {}
     for c in checks:
         p = subprocess.run(['/venv/bin/python', os.path.join(HERE, 'check.py'), c, '--tier', 'quick'], capture_output=True, text=True, cwd=HERE, env=env)
@@ -31,5 +36,5 @@ for sid in ['(unchanged)'] + seeds:
             row[c] = 'error rc=%d %s' % (p.returncode, (p.stdout + p.stderr)[-200:])
     out[sid] = row
     print(sid, ' '.join('%s=%s' % (c, {'pass': '.', 'violation': 'V', 'unproved': 'u'}.get(v, 'E')) for c, v in row.items()), flush=True)
-    json.dump(out, open(os.path.join(HERE, 'seeded', 'MATRIX.json'), 'w'), indent=1)
+    json.dump(out, open(os.path.join(HERE, sub, 'MATRIX.json'), 'w'), indent=1)
 subprocess.run(['git', '-C', repo, 'checkout', '--', '.'], check=True)
